@@ -54,6 +54,12 @@ def stateEq (a b : Shard) (keys : List String) : Bool := keys.all fun k => topLa
 
 def leafCount (s : Shard) (keys : List String) : Nat := (keys.filter fun k => (top s k).isSome).length
 
+/-- property name of a key "group/name/id" (a key without '/' is g0/p0/<key>). -/
+def keyName (k : String) : String :=
+  match k.splitOn "/" with
+  | [_, n, _] => n
+  | _ => "p0"
+
 structure St where
   c : Cluster
   keys : List String
@@ -80,12 +86,17 @@ def runOp (st : St) (f : List String) : St × String :=
       | .err => "D:ERR"
       | .ok d => "D:" ++ b01 d)
   | ["Q", down, rr] =>
+    -- one QueryRequest per property name (a request carries one name)
     if st.keys.isEmpty then (st, "Q:-,rq0") else
-    let (c', r) := queryOp st.c (parseDown down) st.keys (rr == "1")
-    ({ st with c := c' }, s!"Q:{showProps r.props false},rq{r.tasks}")
-  | ["O", tag, dir, down] =>
-    if st.keys.isEmpty then (st, "O:-,rq0") else
-    let (c', r) := queryOrderedOp st.c (parseDown down) st.keys tag (dir == "d")
+    let names := sortBy (fun a b => a < b) (dedupStr (st.keys.map keyName))
+    let (c', props, tasks) := names.foldl (fun (acc : Cluster × List Doc × Nat) n =>
+      let (c1, r) := queryOp acc.1 (parseDown down) (st.keys.filter fun k => keyName k == n) (rr == "1")
+      (c1, acc.2.1 ++ r.props, acc.2.2 + r.tasks)) (st.c, [], 0)
+    ({ st with c := c' }, s!"Q:{showProps props false},rq{tasks}")
+  | ["O", name, tag, dir, down] =>
+    let ks := st.keys.filter fun k => keyName k == name
+    if ks.isEmpty then (st, "O:-,rq0") else
+    let (c', r) := queryOrderedOp st.c (parseDown down) ks tag (dir == "d")
     ({ st with c := c' }, s!"O:{showProps r.props true},rq{r.tasks}")
   | ["R", src, dst, k] =>
     let st := addKey st k
